@@ -1092,3 +1092,13 @@ add("C12", "sarif-results-with-suppressions-skipped", SG,
 add("C06", "codeql-only-error-level-results", "codemodder/codeql.py",
     [("                    result_set.add_result(codeql_result)", "                    if sarif_result.get(\"level\", \"error\") == \"error\":\n                        result_set.add_result(codeql_result)")],
     "fire", "R-RESULTS-ALL-ADDED", "CodeQLResultSet.from_sarif")
+add("C12", "hotspot-files-replace-issue-files", CMF,
+    [("    tool_result_files_map[\"sonar\"].extend(argv.sonar_hotspots_json or [])", "    tool_result_files_map[\"sonar\"] = list(argv.sonar_hotspots_json or tool_result_files_map[\"sonar\"])")],
+    "fire", "R-OPTION-FILES-REACH", "key:sonar")
+add("C12", "hotspot-option-never-read", CMF,
+    [("    tool_result_files_map[\"sonar\"].extend(argv.sonar_hotspots_json or [])\n", "")],
+    "fire", "R-OPTION-FILES-REACH", "option:sonar_hotspots_json")
+add("C12", "benign-sonar-files-added-with-plus-equals", CMF,
+    [("    tool_result_files_map[\"sonar\"].extend(argv.sonar_issues_json or [])\n    tool_result_files_map[\"sonar\"].extend(argv.sonar_hotspots_json or [])\n",
+      "    for sonar_files in (argv.sonar_issues_json, argv.sonar_hotspots_json):\n        tool_result_files_map[\"sonar\"] += sonar_files or []\n")],
+    "silent")
